@@ -5,7 +5,7 @@ package zlint
 // Machine-checked contracts for the verification machinery in /verif (govc).
 // This file contains comments only and is compiled only with -tags verif.
 
-//@ func (*ResultSet).updateErrorStatePresent [C01 C10]
+//@ func (*ResultSet).updateErrorStatePresent [C01 C07 C10]
 //@   requires z != nil && result != nil
 //@   nopanic
 //@   assigns z.NoticesPresent, z.WarningsPresent, z.ErrorsPresent, z.FatalsPresent
